@@ -41,4 +41,33 @@ def callPath {Event : Type} (em : List (Listener Event) → Event → Trace) (ls
     (events : List Event) (outcome : Res) : Res :=
   if events.any (fun e => (em ls e).escaped) then .panic else outcome
 
+/-! ## what a listener can observe: where on the completion path the listeners run
+
+A listener is ordinary code: it may take its time while other calls arrive, and it may use the
+service itself. Either way a call is decided against the state the layer is in *while the listeners
+of a completion event run*. `finish` runs the part of a completion path that matters for that: give
+a slot of the finished call back (`drop(permit)`, a counter decrement), run the listeners of an
+event; every `emit` records what a call arriving at that moment is told. -/
+
+inductive Act
+  | release      -- give back a slot the finished call holds
+  | emit         -- run the listeners of a completion event
+deriving DecidableEq, Repr
+
+/-- the layer's capacity bookkeeping (a bulkhead's semaphore, a limiter's in-flight counter) -/
+structure Slots where
+  inflight : Nat
+  max      : Nat
+deriving DecidableEq, Repr
+
+/-- is a call arriving now let through? -/
+def Slots.admits (s : Slots) : Bool := decide (s.inflight < s.max)
+
+/-- run a completion path: the final bookkeeping and, per `emit`, the verdict a call made from
+inside (or during) a listener of that event gets -/
+def finish (s : Slots) : List Act → Slots × List Bool
+  | [] => (s, [])
+  | .release :: tl => finish { s with inflight := s.inflight - 1 } tl
+  | .emit :: tl => ((finish s tl).1, s.admits :: (finish s tl).2)
+
 end TR.Listeners
